@@ -169,7 +169,7 @@ func classifyFloat(c Case) (bool, []string) {
 var specFloatFold = pbt.Spec[Case]{
 	Property: prop, Name: "float-fold",
 	Rule:     "one call of sumf/subf/multf/divf with 2-5 plain decimal arguments (<=15 significant digits, values hugging powers of ten, integers) via constant/group/key; parsed result within 1e-9 relative of the exact big.Rat left fold; 1 in 12 cases has a non-numeric argument. Non-trivial: a negative or fractional argument, or a non-numeric one",
-	Budget:   pbt.Budget{Quick: 50000, Thorough: 2500000},
+	Budget:   pbt.Budget{Quick: 15000, Thorough: 120000},
 	Gen:      genFloatFold,
 	Check:    checkFloatFold,
 	Classify: classifyFloat,
@@ -285,7 +285,7 @@ func classifyRounding(c Case) (bool, []string) {
 var specRounding = pbt.Spec[Case]{
 	Property: prop, Name: "rounding",
 	Rule:     "floor/ceil/round of a plain decimal (<=15 significant digits; a quarter of them end in ..4/..5/..6 at some decimal place) via constant/group/key, round precision 0-8 as constant or absent; floor: n<=v<n+1, ceil: n-1<v<=n, round: at most p decimals and within half a unit of decimal p (either neighbour at a tie); 1 in 12 non-numeric. Non-trivial: fractional or negative-fractional input, digits dropped, non-numeric",
-	Budget:   pbt.Budget{Quick: 50000, Thorough: 2500000},
+	Budget:   pbt.Budget{Quick: 15000, Thorough: 120000},
 	Gen:      genRounding,
 	Check:    checkRounding,
 	Classify: classifyRounding,
@@ -472,7 +472,7 @@ func classifyTranscend(c Case) (bool, []string) {
 var specTranscend = pbt.Spec[Case]{
 	Property: prop, Name: "log-pow-sqrt",
 	Rule:     "log10/log2/ln/sqrt of a positive decimal (powers of 10 and 2, perfect squares, short decimals, integers < 2^40), pow with base in (0,3000] (negative for integer exponents) and an exponent from {0,1,2,3,5,8,10,-1,-2,-3,0.5,-0.5,1.5,2.5,0.25,0.75}; oracle by inversion: sqrt(x)^2=x, base^log=x (math.Pow/Exp), pow(a,n/d)^d=a^n exactly in big.Rat, all within 1e-9 relative; 1 in 12 non-numeric. Every case is non-trivial",
-	Budget:   pbt.Budget{Quick: 40000, Thorough: 2000000},
+	Budget:   pbt.Budget{Quick: 12000, Thorough: 96000},
 	Gen:      genTranscend,
 	Check:    checkTranscend,
 	Classify: classifyTranscend,
